@@ -463,6 +463,14 @@ fn gen_keygen(thorough: bool, rng: &mut Rng) -> Result<(), String> {
         if revoc != !pkj["r_key"].is_null() || revoc != !skj["r_key"].is_null() {
             oracles.push(json!({"name":"revocation_part_presence","ok":false,"detail":"revocation key part does not match support_revocation"}));
         }
+        // a freshly generated key proof names EVERY generator of the key (the legacy exemption of the holder's
+        // check is for old proofs only: a new key whose master_secret generator is not covered is not proven well-formed)
+        {
+            let named: BTreeSet<String> = jv(&cd.kcp)["xr_cap"].as_array().map(|a| a.iter().filter_map(|e| e[0].as_str().map(|x| x.to_string())).collect()).unwrap_or_default();
+            if named != got {
+                oracles.push(json!({"name":"key_proof_covers_all","ok":false,"detail":format!("the generated key-correctness proof names {:?}, the key has generators {:?}: not covered {:?}", named, got, got.difference(&named).collect::<Vec<_>>())}));
+            }
+        }
         // the library's own holder accepts the key proof
         let hidden = { let mut b = Issuer::new_credential_values_builder().unwrap(); for a in &non_v { b.add_dec_hidden(a, "5").unwrap(); } b.finalize().unwrap() };
         let nonce = new_nonce().map_err(|e| e.to_string())?;
